@@ -68,6 +68,14 @@ def main():
     atoms.calc = Harmonic(k=0.2)
     mode = c["mode"]
     targets = {k: os.path.join(d, f) for k, f in (("logfile", "run.log"), ("trajectory", "run.xyz"), ("restart_file", "run.json"))}
+    if c.get("stale_files"):
+        # a previous run left its output under the same names (a script run again in the same directory): with logging_mode 'w' every file starts afresh
+        with open(targets["logfile"], "w") as fh:
+            fh.write("Class  Step  old\nOld 0 1.0\nOld 1 2.0\n")
+        with open(targets["trajectory"], "w") as fh:
+            fh.write("1\nLattice=\"1 0 0 0 1 0 0 0 1\" Properties=species:S:1:pos:R:3\nAr 0.0 0.0 0.0\n" * 3)
+        with open(targets["restart_file"], "w") as fh:
+            fh.write(json.dumps({"old": True, "padding": "x" * 30000}))
     if c.get("handles") == "fileobj":
         # the user hands over files they opened themselves (ordinary block-buffered text handles)
         targets = {k: open(v, c.get("handle_mode", "w")) for k, v in targets.items()}  # noqa: SIM115
